@@ -1200,6 +1200,37 @@ func c04OptState(r *core.Report) {
 									}
 								}
 								if inCtor {
+									// what is stored must belong to this application of the option: a map or
+									// slice captured from the constructor is shared by every Validate call
+									// the option value is passed to (and by the options it is combined with)
+									shared := ""
+									if len(as.Rhs) == len(as.Lhs) {
+										for i2, l2 := range as.Lhs {
+											if l2 != l {
+												continue
+											}
+											if rid, ok := ast.Unparen(as.Rhs[i2]).(*ast.Ident); ok {
+												if ro, isVar := info.ObjectOf(rid).(*types.Var); isVar {
+													switch ro.Type().Underlying().(type) {
+													case *types.Map, *types.Slice:
+														var lit *ast.FuncLit
+														for _, anc := range core.PathTo(d.Body, as) {
+															if fl, ok := anc.(*ast.FuncLit); ok {
+																lit = fl
+															}
+														}
+														if lit != nil && (ro.Pos() < lit.Pos() || ro.Pos() > lit.End()) {
+															shared = rid.Name
+														}
+													}
+												}
+											}
+										}
+									}
+									if shared != "" {
+										r.Bad(key, pos, "the option stores `"+shared+"`, a map or slice created outside the closure, into the options: the same object is installed by every application of this option value, and another option that adds to the field afterwards writes into it — the option value then allows, in later Validate calls, what only the other option named")
+										continue
+									}
 									r.OK(key, pos, "option constructor applied to a fresh struct")
 									continue
 								}
